@@ -158,6 +158,52 @@ def loop_positions():
     return len(cases), fails
 
 
+FOR_TARGETS = ["x", "x, y", "(x, y)", "x, (y, z)", "(x, (y, z))", "x,y"]
+FOR_ITERS = {       # iterable text -> per target shape
+    1: ["seq", "seq[1:]", "seq[::2]", "'a:b'", '"p:q:r"', "{1: 2, 3: 4}", "[s for s in seq if s]", "sorted(seq, key=lambda v: -v)", "(seq)", "seq[0:2][:1]",
+        "[{'k': 1}['k'], 2]"],
+    2: ["pairs", "pairs[1:]", "{1: 2, 3: 4}.items()", "[(a, b) for a, b in pairs]", "zip('a:', ':b')"],
+    3: ["triples", "triples[:1]", "[(1, (2, 3))]"],
+}
+
+
+def for_header_cases():
+    out = []
+    for tgt in FOR_TARGETS:
+        names = [n for n in tgt.replace("(", " ").replace(")", " ").replace(",", " ").split()]
+        for it in FOR_ITERS[len(names)]:
+            if len(names) == 3 and it == "[(1, (2, 3))]" and "(y, z)" not in tgt:
+                continue
+            out.append((tgt, it, names))
+    return out
+
+
+def run_for_header(args):
+    """a `% for` whose body uses `loop`, against the native loop with enumerate: any target list, any iterable text"""
+    from mako.template import Template
+    tgt, it, names = args
+    env = {"seq": [3, 0, 5], "pairs": [(1, 2), (3, 4)], "triples": [(1, (2, 3)), (4, (5, 6))]}
+    shown = "|".join("${%s}" % n for n in names)
+    src = "%% for %s in %s:\n${loop.index}:%s;\n%% endfor\n" % (tgt, it, shown)
+    code = "out = []\nfor __i, (%s) in enumerate(%s):\n    out.append('%%d:%%s;\\n' %% (__i, '|'.join(str(v) for v in [%s])))\n" % (
+        tgt if len(names) > 1 or tgt.startswith("(") else tgt + ",", "[(v,) for v in %s]" % it if len(names) == 1 and not tgt.startswith("(") else it, ", ".join(names))
+    if len(names) == 1:
+        code = "out = []\nfor __i, %s in enumerate(%s):\n    out.append('%%d:%%s;\\n' %% (__i, %s))\n" % (tgt, it, names[0])
+    ns = dict(env)
+    try:
+        exec(code, ns)
+        want = "".join(ns["out"])
+    except Exception:
+        return None
+    try:
+        got = Template(src).render_unicode(**env)
+    except Exception as e:
+        got = "%s: %s" % (type(e).__name__, str(e)[:100])
+    if got != want:
+        return {"header": "% for " + tgt + " in " + it + ":", "template": src, "expected": want, "got": got}
+    return None
+
+
 def run_grid(rep, tier):
     t0 = time.time()
     n_cases = 1600 if tier == "quick" else 16000
@@ -176,6 +222,18 @@ def run_grid(rep, tier):
     else:
         rep.add(Result("C03.control-grid", BOUNDED_OK, klass="B", backend="native-oracle", function="mako.codegen", bound=bound,
                        evaluations=n, time_s=time.time() - t0, detail="all rendered outputs equal the native execution"))
+    # for headers: the loop rewrite has to find the whole iterable, whatever punctuation it contains
+    t2 = time.time()
+    fh = for_header_cases()
+    fh_bad = [o for o in pool_map(run_for_header, fh) if o]
+    fb = "%d `%% for` headers (6 target shapes x iterables with slices, dict literals, strings with colons, lambdas, comprehensions) with `loop` used in the body" % len(fh)
+    if fh_bad:
+        rep.add(Result("C03.for-header-grid", VIOLATED, klass="B", backend="native-oracle", function="mako.codegen:mangle_mako_loop", bound=fb,
+                       evaluations=len(fh), detail="%s: %s" % (fh_bad[0]["header"], fh_bad[0]["got"][:160]), witness=fh_bad[0], replayed=True,
+                       replay={"failures": fh_bad[:3]}, time_s=time.time() - t2))
+    else:
+        rep.add(Result("C03.for-header-grid", BOUNDED_OK, klass="B", backend="native-oracle", function="mako.codegen:mangle_mako_loop", bound=fb,
+                       evaluations=len(fh), time_s=time.time() - t2, detail="every loop renders what the native loop with enumerate gives"))
     # loop at every reading position
     t1 = time.time()
     n2, lf = loop_positions()
